@@ -490,3 +490,62 @@ func H_C11_intfloat() {
 	}
 	vreach("end")
 }
+
+// H_C11_stable: stability beyond the size below which the stdlib's unstable sort is
+// an insertion sort (12): arrays of 13..40 rows with concrete key patterns; a symbolic
+// key value k keeps the solver in the loop (the pattern uses k and k+1).
+func H_C11_stable() {
+	sizes := []int{13, 20, 33, 40}
+	n := sizes[nondetChoice(len(sizes))]
+	k := hSmallInt()
+	pat := nondetChoice(4)
+	vals := make([]any, n)
+	keys := make([]any, n)
+	for i := range vals {
+		vals[i] = i
+		var key int
+		switch pat {
+		case 0:
+			key = k
+		case 1:
+			key = k + i%2
+		case 2:
+			key = k + (i/5)%3
+		default:
+			key = k - i%3
+		}
+		keys[i] = []any{key}
+	}
+	for _, f := range []func(any, any) any{funcSortBy, funcGroupBy, funcUniqueBy} {
+		_ = f
+	}
+	out, ok := funcSortBy(vals, keys).([]any)
+	vassert(ok && len(out) == n, "sort_by returns an array of the same length")
+	if !ok || len(out) != n {
+		return
+	}
+	for i := 1; i < n; i++ {
+		p, q := out[i-1].(int), out[i].(int)
+		c := Compare(keys[p], keys[q])
+		vassert(c <= 0, "sort_by orders by key")
+		if c == 0 {
+			vassert(p < q, "sort_by is stable on arrays longer than 12")
+		}
+	}
+	g, ok := funcGroupBy(vals, keys).([]any)
+	vassert(ok, "group_by returns an array")
+	for _, grp := range g {
+		gs := grp.([]any)
+		for j := 1; j < len(gs); j++ {
+			vassert(gs[j-1].(int) < gs[j].(int), "group_by keeps the input order inside a group")
+		}
+	}
+	u, ok := funcUniqueBy(vals, keys).([]any)
+	vassert(ok && len(u) == len(g), "unique_by keeps one element per group")
+	if ok && len(u) == len(g) {
+		for i := range u {
+			vassert(u[i].(int) == g[i].([]any)[0].(int), "unique_by keeps the first element of each group")
+		}
+	}
+	vreach("end")
+}
